@@ -540,6 +540,7 @@ type caseIn struct {
 	New       string `json:"new"`
 	Depth     int    `json:"depth"`
 	RouteSize int    `json:"routeSize,omitempty"`
+	SameEnc   bool   `json:"sameEncoding,omitempty"`
 }
 
 // progress of the harness, watched by main: the case being run and how many have been started
@@ -614,9 +615,17 @@ func canonEnvErr(err error) string {
 	return m
 }
 
-func envCase(oldEnv, newEnv starlark.Value) {
-	in := map[string]any{"stream": "diff.env", "old": show(oldEnv), "new": show(newEnv)}
-	eq, reason, d, err, panicked := dawn.VerifDiffEnv(oldEnv, newEnv)
+func envCase(oldEnv, newEnv starlark.Value, sameEncoding bool) {
+	in := map[string]any{"stream": "diff.env", "old": show(oldEnv), "new": show(newEnv), "sameEncoding": sameEncoding}
+	eq, reason, d, err, panicked, supported := dawn.VerifDiffEnv(oldEnv, newEnv, sameEncoding)
+	if !supported {
+		stats["env.same_encoding_unsupported"]++
+		return
+	}
+	se := "0"
+	if sameEncoding {
+		se = "1"
+	}
 	var ans string
 	switch {
 	case panicked != "":
@@ -625,6 +634,8 @@ func envCase(oldEnv, newEnv starlark.Value) {
 		ans = "error " + hx(canonEnvErr(err))
 	case eq:
 		ans = "same"
+	case reason == "environment changed" && d == nil:
+		ans = "changed-opaque"
 	case oldEnv == starlark.None:
 		ans = "never"
 		if reason != "target has never been run" {
@@ -633,8 +644,12 @@ func envCase(oldEnv, newEnv starlark.Value) {
 	default:
 		ans = "changed " + hx(reason) + " " + showDiff(d)
 	}
-	emitC("diff.env", "env "+show(oldEnv)+" "+show(newEnv), ans)
+	emitC("diff.env", "env "+se+" "+show(oldEnv)+" "+show(newEnv), ans)
 	stats["env.judged"]++
+	if sameEncoding {
+		// equal encodings decode to equal environments: only meaningful for equal values
+		return
+	}
 	// the reason names exactly the parts of the environment that differ
 	od, ok1 := oldEnv.(*starlark.Dict)
 	nd, ok2 := newEnv.(*starlark.Dict)
@@ -698,7 +713,7 @@ func main() {
 				os.Exit(2)
 			}
 			if in.Stream == "diff.env" {
-				envCase(parse(in.Old), parse(in.New))
+				envCase(parse(in.Old), parse(in.New), in.SameEnc)
 			} else {
 				diffCase(in.Stream, parse(in.Old), parse(in.New), in.Depth, in.RouteSize)
 			}
